@@ -181,6 +181,7 @@ pub fn prove_full(
     version: Version,
     drop_remainder: bool,
     forge_eval: Option<usize>,
+    zero_wire: Option<usize>,
 ) -> Option<Built> {
     let n = key.n;
     if wires.n != n || powers.len() < n + 6 {
@@ -188,7 +189,11 @@ pub fn prove_full(
     }
     let omega = rf::root_of_unity(n);
     let cols: [Vec<BlsScalar>; 4] = core::array::from_fn(|k| wires.w.iter().map(|w| w[k]).collect());
-    let wp: [Vec<BlsScalar>; 4] = core::array::from_fn(|k| mask(&rf::idft(&cols[k], n), &bl.wires[k], n));
+    let mut wp: [Vec<BlsScalar>; 4] = core::array::from_fn(|k| mask(&rf::idft(&cols[k], n), &bl.wires[k], n));
+    if let Some(k) = zero_wire {
+        // forger: commit to the zero polynomial for this wire (identity commitment)
+        wp[k] = Vec::new();
+    }
     let comm = |p: &[BlsScalar]| naive_commit(powers, &rf::trim(p.to_vec()));
     let wc: [G1Affine; 4] = core::array::from_fn(|k| comm(&wp[k]));
     let mut t = seeded_transcript(vk, pi, version);
@@ -409,5 +414,5 @@ pub fn prove_full(
 }
 
 pub fn prove(key: &KeyPolys, powers: &[G1Affine], vk: &VKey, wires: &Wires, pi: &[BlsScalar], bl: &Blinders, version: Version) -> Option<Vec<u8>> {
-    prove_full(key, powers, vk, wires, pi, bl, version, false, None).map(|b| b.proof)
+    prove_full(key, powers, vk, wires, pi, bl, version, false, None, None).map(|b| b.proof)
 }
